@@ -4,6 +4,7 @@ go 1.23
 
 require (
 	github.com/rogpeppe/go-internal v0.0.0
+	golang.org/x/mod v0.21.0
 	golang.org/x/tools v0.26.0
 )
 
